@@ -316,7 +316,11 @@ func (f *File) AddChild(child Box, boxStartPos uint64) {
 		f.isFragmented = true
 		moof := box
 		moof.StartPos = boxStartPos
-		f.startSegmentIfNeeded(moof, boxStartPos)
+		if lastSeg := f.LastSegment(); lastSeg == nil || lastSeg.LastFragment() == nil ||
+			lastSeg.LastFragment().Moof != nil {
+			// Only check for a new segment if the fragment has not already been started by an emsg box
+			f.startSegmentIfNeeded(moof, boxStartPos)
+		}
 		currSeg := f.LastSegment()
 		lastFrag := currSeg.LastFragment()
 		if lastFrag == nil || lastFrag.Moof != nil {
